@@ -19,6 +19,7 @@ func (s *CommitStateDB) createObject(addr ethcmn.Address) (newObj, prevObj *stat
 		return nil, prevObj
 	}
 	newObj = newStateObject(s, acc)
+	newObj.created = true
 	newObj.setNonce(0) // sets the object to dirty
 
 	if prevObj == nil {
@@ -103,4 +104,5 @@ func (s *CommitStateDB) deleteStateObject(so *stateObject) {
 	so.deleted = true
 	s.logger.Detailf("VM: delete state object for address '%s' with nonce: '%d' and balance: '%d' \n", so.Address(), so.account.Sequence, so.account.Balance())
 	s.accountKeeper.RemoveAccount(*so.account)
+	s.contractStore.DeleteStorage(so.Address())
 }
